@@ -242,7 +242,9 @@ def exhaustive(ctx, reps, out):
     out["extra"]["exhaustive_bound"] = (
         f"all strings of length <= {L_both} over {len(both)} characters (two representatives of every "
         f"multi-member class) and of length {L_both + 1}..{L_single} over {len(first)} characters (one per class), "
-        f"per style")
+        f"per style; accepted strings judged individually: "
+        + ("all of length <= 3, one per class word of length 4, one per three class words of length 5"
+           if ctx.quick else "all"))
     jobs, meta = [], []
     for st in STYLES:
         for n in range(0, L_single + 1):
@@ -254,7 +256,7 @@ def exhaustive(ctx, reps, out):
     # interleave so that every worker gets a mix of cheap and expensive jobs
     order = sorted(range(len(jobs)), key=lambda i: (i * 7919) % len(jobs))
     jobs2 = [jobs[i] for i in order]
-    res2 = core.run_impl_parallel("impl_c19.py", jobs2, chunk=max(1, (len(jobs2) + 4 * core.NCPU - 1) // (4 * core.NCPU)),
+    res2 = core.run_impl_parallel("impl_c19.py", jobs2, chunk=max(1, (len(jobs2) + 2 * core.NCPU - 1) // (2 * core.NCPU)),
                                   timeout=7200)
     res = [None] * len(jobs)
     for i, r in zip(order, res2):
@@ -286,8 +288,17 @@ def exhaustive(ctx, reps, out):
         words = {}
         for spec, o in accepted[st]:
             w = tuple(cls_of[ch] for ch in spec)
-            words.setdefault(w, []).append(spec)
-            acc_cases.append((st, spec, [80, 30], o))
+            words.setdefault(w, []).append((spec, o))
+        # which accepted strings are also judged individually (interpretation, draw equivalence)
+        for k, w in enumerate(sorted(words)):
+            if not ctx.quick or len(w) <= 3:
+                pick = words[w]
+            elif len(w) == 4 or k % 3 == 0:
+                pick = [min(words[w], key=lambda so: so[0])]
+            else:
+                pick = []
+            acc_cases += [(st, spec, [80, 30], o) for spec, o in pick]
+        words = {w: [s for s, _ in so] for w, so in words.items()}
         # every concretisation of a class word behaves alike
         for w, specs in words.items():
             expect = 1
@@ -322,10 +333,13 @@ def exhaustive(ctx, reps, out):
                 out["errors"].append(f"{st}: enum_check code {code} without a difference list")
         for j in (1, 2):
             v = parse_term(vals[3 * k + j])
-            if v[0]:
-                out["mismatches"].append({"what": "per-length outcome counts differ (1 = from the model, 2 = from the documented grammar)",
-                                          "style": st, "code": v[0], "model_counts": v[1], "doc_counts": v[2],
-                                          "observed": {n: counts[(st, n)] for n in range(L_single + 1)}})
+            info = {"style": st, "code": v[0], "model_counts": v[1], "doc_counts": v[2],
+                    "observed [accepted, StyleError, ValueError]": {n: counts[(st, n)] for n in range(L_single + 1)}}
+            if v[0] & 1:
+                info["what"] = "per-length outcome counts differ from the implementation model"
+                out["mismatches"].append(info)
+            if v[0] & 2:
+                out["extra"].setdefault("outcome_counts_differ_from_documented_grammar", []).append(info)
     out["_confirm"] += confirm
     return acc_cases
 
@@ -470,6 +484,9 @@ def run(ctx):
             o, c = ob[0], cs[0]
         out["failures"].append(failure_of(st, small, tm, o, c))
     out["extra"]["failing_specifiers_seen"] = len(failing)
+    if out["extra"].get("outcome_counts_differ_from_documented_grammar") and not out["failures"]:
+        out["errors"].append("the numbers of accepted / StyleError / ValueError strings differ from the documented "
+                             "grammar's but no individual failing specifier was confirmed")
 
     distinct = {(st, sp) for st, sp, _ in all_triples} | {(st, sp) for st, sp, _, _ in acc_cases}
     return {
